@@ -319,7 +319,9 @@ Proof.
         unfold restore_all in H.
         destruct (restore_scalars (sv_scalars sv) s5) as [s5a| | | |] eqn:Ers; try discriminate; try contradiction.
         destruct Hs as (G1 & G2 & G3).
-        assert (ar_base s5a = ar_base s4) as Hb5 by (rewrite G3; reflexivity).
+        assert (ar_base s5a = ar_base s4) as Hb5.
+        { change (ar_base s5) with (if kb then ar_base s else None) in G3.
+          change (ar_base s4) with (if kb then ar_base s else None). exact G3. }
         pose proof (restore_arrays_acct (sv_arrays sv) s5a z2 ltac:(rewrite Hb5; exact E2)
                       ltac:(intros n d b0 Hin b Hb; rewrite Hb5 in Hb; eapply Hdims; eassumption)
                       ltac:(lia) G2) as Hr.
